@@ -39,7 +39,20 @@ elif order == 'shuffle':
     random.Random(7).shuffle(idx)
 elif order == 'twice':
     idx = [i for i in idx for _ in (0, 1)]
+import os, tempfile
+from yldprolog.compiler import compile_prolog_from_file, CompilerContext
 def opts(k):
+    if k == 8:
+        # options that inherit everything they do not set from the library's default options class
+        class P(CompilerContext):
+            debug_filename = True
+            outf = io.StringIO()
+        return P
+    if k == 9:
+        o = CompilerContext()
+        o.debug_filename = True
+        o.outf = io.StringIO()
+        return o
     class O:
         debug_filename = bool(k & 1)
         debug_parser = bool(k & 2)
@@ -47,9 +60,21 @@ def opts(k):
         current_source_file = 'src.prolog'
         outf = io.StringIO()
     return O
+tmpdir = tempfile.mkdtemp(prefix='ypv-c18w-')
 out = {}
-for i in idx:
-    for k in (0, 1, 4, 7):
+for n, i in enumerate(idx):
+    if order in ('fwd', 'twice', 'shuffle') and n % 2 == 0:
+        # the compilation history also contains compilations through the file API with the default options
+        fp = os.path.join(tmpdir, 'hist%d.prolog' % (n % 3))
+        open(fp, 'w', encoding='utf8', newline='').write(texts[i])
+        try:
+            h = hashlib.sha256(compile_prolog_from_file(fp).encode('utf8', 'backslashreplace')).hexdigest()
+        except RecursionError:
+            h = 'EXC:RecursionError'
+        except Exception as e:
+            h = 'EXC:' + type(e).__name__
+        out.setdefault('%d/file' % i, []).append(h)
+    for k in (0, 1, 4, 7, 8, 9):
         try:
             h = hashlib.sha256(compile_prolog_from_string(texts[i], opts(k)).encode('utf8', 'backslashreplace')).hexdigest()
         except RecursionError:
@@ -57,6 +82,9 @@ for i in idx:
         except Exception as e:
             h = 'EXC:' + type(e).__name__
         out.setdefault('%d/%d' % (i, k), []).append(h)
+for fn in os.listdir(tmpdir):
+    os.unlink(os.path.join(tmpdir, fn))
+os.rmdir(tmpdir)
 print(json.dumps(out))
 '''
 
@@ -65,7 +93,7 @@ CONFIGS = [('0', 'fwd'), ('1', 'fwd'), ('2', 'rev'), ('3', 'shuffle'), ('random'
 
 def plan(tier, seed):
     if tier == 'quick':
-        return {'n': 32, 'deadline': 150, 'case_timeout': 200,
+        return {'n': 24, 'deadline': 150, 'case_timeout': 200,
                 'floor': {'distinct_nontrivial': 200, 'programs': 600, 'process_runs': 150, 'hashes_compared': 10000}}
     return {'n': 640, 'deadline': 560, 'case_timeout': 200,
             'floor': {'distinct_nontrivial': 4000, 'programs': 12000, 'process_runs': 3000, 'hashes_compared': 200000}}
@@ -170,12 +198,21 @@ def run_case(ctx, seed, idx, tier):
     keys = []
     v = None
     ref = results[CONFIGS[0]]
-    for key, hs0 in ref.items():
+    allkeys = set()
+    for cfg in CONFIGS:
+        allkeys.update(results[cfg])
+    for key in sorted(allkeys):
         i, k = key.split('/')
         i = int(i)
-        allh = set(hs0)
+        allh = set()
         for cfg in CONFIGS:
-            allh.update(results[cfg].get(key, ['MISSING']))
+            if key in results[cfg]:
+                allh.update(results[cfg][key])
+        if k == 'file':
+            # the file API with default options must give what the string API gives with plain options
+            allh.update(ref.get('%d/0' % i, []))
+            k = -1
+        for cfg in CONFIGS:
             c['hashes_compared'] = c.get('hashes_compared', 0) + len(results[cfg].get(key, []))
         if len(allh) != 1 and v is None:
             per = {'%s/%s' % cfg: results[cfg].get(key) for cfg in CONFIGS}
